@@ -52,6 +52,7 @@ pub struct Monitors {
     pub popped_probe: Option<u16>,
     /// probe_seq as it was when the current step began
     pub probe_seq_before: Option<u16>,
+    pub rto_recovery_until_before: Option<u16>,
     /// the peer acknowledged an expired probe in its ORIGINAL size after the library had discarded it
     pub desync: bool,
     /// loss episode: Some(recovery point) from the first retransmission until the cumulative ACK passes it
@@ -79,6 +80,9 @@ pub struct Monitors {
     pub cum_acked_bytes: u64,
     /// RTO value in force and the instant of the last timer-driven retransmission without a new ACK since
     pub last_rto_fire: Option<(u64, u64)>,
+    /// a timeout recovery is in progress until the cumulative ACK reaches this sequence number
+    /// (the highest one sent when the retransmission timeout fired) - derived from the wire
+    pub rto_recovery_until: Option<u16>,
     pub reset_seen: bool,
     pub fin_acked_by_peer: bool,
     // ---- handshake (C17 R1) ----
@@ -107,6 +111,7 @@ impl Monitors {
             probe_seq: None,
             popped_probe: None,
             probe_seq_before: None,
+            rto_recovery_until_before: None,
             desync: false,
             episode: None,
             loss_seen: false,
@@ -125,6 +130,7 @@ impl Monitors {
             sack_dups: 0,
             cum_acked_bytes: 0,
             last_rto_fire: None,
+            rto_recovery_until: None,
             reset_seen: false,
             fin_acked_by_peer: false,
             synack_times: vec![],
@@ -180,6 +186,7 @@ impl Monitors {
         out.push(self.dup_acks as u64 | (self.sack_dups as u64) << 8 | (self.peer_used_sack as u64) << 16 | (self.reset_seen as u64) << 17 | (self.fin_acked_by_peer as u64) << 18 | (self.established_seen as u64) << 19 | (self.initiator_pkt_seen as u64) << 20);
         out.push(self.last_peer_ack.map(|x| x.0 as u64 | (x.1 as u64) << 16).unwrap_or(u64::MAX));
         out.push(self.cum_acked_bytes);
+        out.push(self.rto_recovery_until.map(|x| x as u64).unwrap_or(u64::MAX));
         match self.last_rto_fire {
             Some((rto, t)) => {
                 out.push(rto);
@@ -205,6 +212,7 @@ impl Monitors {
         let mut v = vec![];
         let rec = w.trace.last().unwrap().clone();
         self.probe_seq_before = self.probe_seq;
+        self.rto_recovery_until_before = self.rto_recovery_until;
         self.c10(&rec, w, &mut v);
         self.peer_side_updates(&rec, w);
         self.tx_wire(&rec, w, act, &mut v);
@@ -344,6 +352,11 @@ impl Monitors {
                     self.episode = None;
                 }
             }
+            if let Some(rp) = self.rto_recovery_until {
+                if sdist(h.ack, rp) >= 0 {
+                    self.rto_recovery_until = None;
+                }
+            }
         }
     }
 
@@ -414,6 +427,13 @@ impl Monitors {
                         "rtx-discipline",
                         if self.desync { "probe/acked-after-expiry-desynchronises-stream" } else { "rtx/bytes-changed" },
                         format!("retransmission of sequence number {} does not carry the bytes at stream offset {}", seq, t.off),
+                    ));
+                    // a receiver that missed the first transmission now stores different bytes under this sequence number
+                    v.push(f(
+                        "C01",
+                        "wire-payload",
+                        if self.desync { "probe/acked-after-expiry-desynchronises-stream" } else { "payload/retransmission-carries-different-bytes" },
+                        format!("sequence number {} was first sent with the stream bytes at offset {}; this transmission carries other bytes", seq, t.off),
                     ));
                 }
                 let tm = self.tx.get_mut(&seq).unwrap();
@@ -877,7 +897,9 @@ impl Monitors {
         }
         if fast_due {
             // unless a timeout recovery is in progress (or a fast recovery is already running)
-            let timeout_recovery = ob.rto_retransmissions > 0 || ob.recovery_phase == 2;
+            // judged from the wire, not from the implementation's own phase: the peer's cumulative ACK had
+            // not yet reached the highest sequence number outstanding when the last timeout fired
+            let timeout_recovery = self.rto_recovery_until_before.is_some();
             let already_recovering = ob.recovery_phase == 1;
             if !timeout_recovery && !already_recovering && rec.rejected.is_empty() && w.done.is_none() {
                 let fu = first_unacked.unwrap();
@@ -908,7 +930,8 @@ impl Monitors {
                 ));
             }
             // a timer-driven step at the retransmission deadline
-            let due_now = ob.timers[0].map(|d| d.as_micros() as u64 == rec.clock_advanced_us).unwrap_or(false) && matches!(act, Some(Act::Tick) | Some(Act::Wait(_))) && rec.clock_advanced_us > 0;
+            // (the runtime's timer wheel has millisecond granularity: the wake-up may come up to 1 ms late)
+            let due_now = ob.timers[0].map(|d| { let t = d.as_micros() as u64; rec.clock_advanced_us >= t && rec.clock_advanced_us < t + 1_000 }).unwrap_or(false) && matches!(act, Some(Act::Tick) | Some(Act::Wait(_))) && rec.clock_advanced_us > 0;
             if due_now && rec.peer_sent.is_empty() && w.done.is_none() {
                 if let Some(ps) = self.probe_seq_before {
                     if let Some(t) = self.tx.get(&ps) {
@@ -937,14 +960,17 @@ impl Monitors {
                     }
                     if resent && !is_probe {
                         // back-off: doubled (within 200 ms .. 60 s) unless new data was acknowledged in between
-                        let want = clamp(ob.rto.as_micros() as u64 * 2);
-                        let got = oa.rto.as_micros() as u64;
-                        if got != want {
+                        let want_ns = (ob.rto.as_nanos() as u64 * 2).clamp(200_000_000, 60_000_000_000);
+                        let got_ns = oa.rto.as_nanos() as u64;
+                        let want = want_ns / 1000;
+                        let got = got_ns / 1000;
+                        if got_ns != want_ns {
                             v.push(f("C06", "backoff", "rtx/rto-not-doubled-after-timeout", format!("RTO was {} us when the timer fired; after the timeout it is {} us, expected {} us", ob.rto.as_micros(), got, want)));
                         }
                         if oa.timers[0].map(|d| d.as_micros() as u64) != Some(got) {
                             v.push(f("C06", "backoff", "rtx/timer-not-restarted-with-backed-off-rto", format!("after the timeout the retransmission timer shows {:?}, the backed-off RTO is {} us", oa.timers[0], got)));
                         }
+                        self.rto_recovery_until = w.ep_hi_seq;
                         // each timeout allows exactly one segment until new data is acknowledged
                         let sent_now = rec.emitted.iter().filter(|e| e.hdr.ptype == 0).count();
                         self.after_rto = Some(sent_now);
